@@ -60,7 +60,9 @@ class ModelRepository:
     def remove_model(self, model):
         filename = None
         for f, m in self.filename_to_model.items():
-            if m == model:
+            # identity, not equality: a user class for the root rule may
+            # define __eq__ and another cached model may compare equal
+            if m is model:
                 filename = f
         if filename:
             # print("*** delete {}".format(filename))
@@ -289,7 +291,7 @@ class GlobalModelRepository:
         """
         if model._tx_filename is None:
             for fn in self.all_models.filename_to_model:
-                if self.all_models.filename_to_model[fn] == model:
+                if self.all_models.filename_to_model[fn] is model:
                     # print("UPDATED/CACHED {}".format(fn))
                     return fn
             i = 0
